@@ -2551,4 +2551,59 @@ theorem accepts_iff_28 (s : Text) : (F28.parse s).isOk = true ↔ DocStmt 2 s :=
 theorem accepts_iff_28C (s : Text) : (F28C.parse s).isOk = true ↔ DocStmt 5 s :=
   accepts_iff_stmt 5 u32Max (by decide) (by decide) s
 
+
+/-- 11 `3!n6!n`: a three-digit message type and a calendar date -/
+theorem accepts_iff_11 (s : Text) :
+    (F11.parse s).isOk = true ↔ ∃ mt date, s = mt ++ date ∧ Doc.Digits 3 mt ∧ Doc.Date date := by
+  constructor
+  · intro h
+    cases hp : F11.parse s with
+    | err => rw [hp] at h; simp [Res.isOk] at h
+    | panic => rw [hp] at h; simp [Res.isOk] at h
+    | ok v =>
+      unfold F11.parse at hp
+      split at hp; · cases hp
+      rename_i hasc
+      split at hp; · cases hp
+      rename_i hlen
+      have ha : isAsciiT s = true := by simpa using hasc
+      have hl : s.length = 9 := by
+        have : blen s = 9 := by simpa using hlen
+        rw [blen_ascii s ha] at this; exact this
+      rw [bto_ascii s 3 ha (by omega)] at hp
+      simp only [Res.bind_ok] at hp
+      obtain ⟨_, hmt, hp⟩ := bind_ok_inv hp
+      rw [bslice_ascii s 3 9 ha (by omega) (by omega)] at hp
+      simp only [Res.bind_ok] at hp
+      obtain ⟨_, _, hp⟩ := bind_ok_inv hp
+      obtain ⟨date, hd, hp⟩ := bind_ok_inv hp
+      have hmt' : (s.take 3).all Char.isDigit = true := by unfold parseNumeric at hmt; exact guard_ok hmt
+      refine ⟨s.take 3, (s.drop 3).take (9 - 3), ?_, ⟨by simp; omega, fun c hc => List.all_eq_true.mp hmt' c hc⟩, ?_⟩
+      · have : (s.drop 3).take (9 - 3) = s.drop 3 := List.take_of_length_le (by simp [List.length_drop]; omega)
+        rw [this, List.take_append_drop]
+      · unfold Doc.Date; rw [ofOption_ok hd]; rfl
+  · rintro ⟨mt, date, rfl, ⟨m3, md⟩, hd⟩
+    obtain ⟨d1, d2⟩ := date_shape date hd
+    have mdall : mt.all Char.isDigit = true := List.all_eq_true.mpr md
+    have hall : isAsciiT (mt ++ date) = true := by
+      have := all_digit_ascii mt mdall
+      have := all_digit_ascii date d2
+      unfold isAsciiT at *; simp only [List.all_append, *, Bool.and_true]
+    have hlen : (mt ++ date).length = 9 := by simp [m3, d1]
+    have hb : blen (mt ++ date) = 9 := by rw [blen_ascii _ hall]; exact hlen
+    have e0 : (mt ++ date).take 3 = mt := by
+      rw [List.take_append_of_le_length (by omega)]; exact List.take_of_length_le (by omega)
+    have e3 : ((mt ++ date).drop 3).take (9 - 3) = date := by
+      rw [List.drop_append_of_le_length (by omega), List.drop_of_length_le (by omega), List.nil_append]
+      exact List.take_of_length_le (by omega)
+    unfold F11.parse
+    simp only [hall, Bool.not_true, Bool.false_eq_true, if_false, hb, bne_self_eq_false]
+    rw [bto_ascii _ 3 hall (by omega), bslice_ascii _ 3 9 hall (by omega) (by omega)]
+    unfold Doc.Date at hd
+    cases hpd : parseDateYYMMDD date with
+    | none => simp [hpd] at hd
+    | some dv =>
+      simp only [Res.bind_ok, e0, e3, parseNumeric, Res.guard, mdall, d2, if_true, Res.ofOption, hpd, Res.pure_eq]
+      rfl
+
 end SwiftMT.Props.C05
